@@ -168,7 +168,44 @@ def run(ctx):
                         v[fld] = es
                         variants.append((pi, v, 'pattern'))
                         break
-        for pi, v, what in variants[:6]:
+        # (d) rule-based policies: every element of one field gets a raising rule (as a non-last attribute of each
+        #     attribute dictionary / in place of each plain rule) -> that policy can not match any more
+        forced = {}
+        if k == 'KU':
+            for pi, p in enumerate(case['policies']):
+                fld, key = pick(rng, [('subjects', 'subject'), ('resources', 'resource'), ('actions', 'action')])
+                what = case['inquiry'][key]
+                es = p[fld]
+                if not es or any(e[0] not in ('A', 'R') for e in es):
+                    continue
+                new_es, ok = [], True
+                for e in es:
+                    rr = ('raise', pick(rng, ['RuntimeError', 'KeyError', 'ValueError']))
+                    if e[0] == 'R':
+                        new_es.append(('R', rr))
+                    elif isinstance(what, dict) and what:
+                        free = [kk for kk in what if kk not in [x[0] for x in e[1]]]
+                        kvs = list(e[1])
+                        if free:
+                            kvs.insert(rng.randint(0, max(0, len(kvs) - 1)), (pick(rng, free), rr))
+                        elif kvs:
+                            j = rng.randrange(len(kvs))
+                            kvs[j] = (kvs[j][0], rr)
+                            if len(kvs) > 1 and j == len(kvs) - 1:
+                                kvs[0], kvs[j] = kvs[j], kvs[0]
+                        else:
+                            ok = False
+                        new_es.append(('A', kvs))
+                    else:
+                        ok = False
+                if not ok:
+                    continue
+                v = dict(p)
+                v[fld] = new_es
+                forced[len(variants)] = pi
+                variants.append((pi, v, 'elemrule'))
+        chosen = variants[:6] + [variants[i] for i in sorted(forced) if i >= 6][:3]
+        for vi, (pi, v, what) in enumerate(chosen):
             c2 = dict(case)
             c2['policies'] = case['policies'][:pi] + [v] + case['policies'][pi + 1:]
             try:
@@ -181,6 +218,12 @@ def run(ctx):
             w2 = polcase.oracle_decision(o2, m2)
             if any(mt is True and er for mt, er in zip(m2, int2)):
                 w2 = False          # a policy "matched" although one of its patterns raised: not a match without error
+            if what == 'elemrule':
+                # independent of the checker under test: a policy every element of which contains a raising rule
+                # matches nothing, so the answer is the one for the store without it
+                m3 = list(m2)
+                m3[pi] = False
+                w2 = polcase.oracle_decision(o2, m3)
             out.evaluations += 1
             out.count('fault:' + what)
             d2 = {'checker': k, 'policies': [repr(p) for p in c2['policies']], 'inquiry': repr(c2['inquiry'])}
